@@ -157,6 +157,13 @@ def reader_arms(ctx: Any) -> Dict[int, Tuple[str, List[Tuple[str, str]]]]:
                     local_expr[b.targets[0].id] = b.value  # a plain local: read through it
             if isinstance(b, ast.Return):
                 ret = b.value
+        # fixed-offset reads written in the arguments themselves (no local names them), by argument index
+        inline_fixed: Dict[int, Tuple[int, int, str]] = {}
+        if isinstance(ret, ast.Call):
+            for i_a, a_ in enumerate(ret.args):
+                bp = None if isinstance(a_, ast.Name) else be_pattern(prog, m, a_)
+                if bp is not None:
+                    inline_fixed[i_a] = bp
         if isinstance(ret, ast.Call) and local_expr:
             import copy as _copy
 
@@ -182,8 +189,13 @@ def reader_arms(ctx: Any) -> Dict[int, Tuple[str, List[Tuple[str, str]]]]:
             if i < len(params):
                 arg_field[id(a)] = params[i]
         # locals read before the call, in offset order
+        fixed: List[Tuple[int, str, str]] = []
         for off, nm, tok in seq_locals:
             fld = next((arg_field[id(a)] for a in ret.args if isinstance(a, ast.Name) and a.id == nm and id(a) in arg_field), '?' + nm)
+            fixed.append((off, tok, fld))
+        for i_a, bp in inline_fixed.items():
+            fixed.append((bp[1], f'U{8 * bp[0]}', arg_field.get(id(ret.args[i_a]), '?')))
+        for off, tok, fld in sorted(fixed):
             toks.append((tok, fld))
         for a in ret.args:
             fld = arg_field.get(id(a), '?')
@@ -379,6 +391,14 @@ def layout(ctx: Any) -> List[Ob]:
         if lp is None:
             return toks, adv
         role: Dict[str, str] = {}
+
+        def classify(val: ast.AST, nm: str) -> None:
+            if isinstance(val, ast.Call) and call_name(val) == '_read_name':
+                toks.append(('NAME', nm, -1))
+            bp = be_pattern(prog, f.module, val)
+            if bp is not None:
+                toks.append((f'U{8 * bp[0]}', nm, bp[1]))
+
         for c in ast.walk(lp):
             if isinstance(c, ast.Call) and call_name(c) in ('DNSQuestion', '_read_record'):
                 if call_name(c) == 'DNSQuestion':
@@ -389,14 +409,13 @@ def layout(ctx: Any) -> List[Ob]:
                 for a, nm in zip(c.args, pn):
                     if isinstance(a, ast.Name):
                         role.setdefault(a.id, nm)
+                    else:
+                        # the field is read in the argument itself (no local names it)
+                        classify(a, nm)
         for st in lp.body:
             if isinstance(st, ast.Assign) and isinstance(st.targets[0], ast.Name):
                 v = st.targets[0].id
-                if isinstance(st.value, ast.Call) and call_name(st.value) == '_read_name':
-                    toks.append(('NAME', role.get(v, '?' + v), -1))
-                bp = be_pattern(prog, f.module, st.value)
-                if bp is not None:
-                    toks.append((f'U{8 * bp[0]}', role.get(v, '?' + v), bp[1]))
+                classify(st.value, role.get(v, '?' + v))
             if isinstance(st, ast.AugAssign) and self_attr(st.target, me_) == 'offset':
                 okc, v2 = prog.try_fold(f.module, st.value)
                 adv = v2 if okc else None
@@ -1034,7 +1053,7 @@ def rollback(ctx: Any) -> List[Ob]:
     for fld in sorted(W):
         obs.append(ob(R, ck, f'rollback of self.{fld}', f'an entry that does not fit leaves no trace in `{fld}`', fld in restored, f'restored on the failure arm: {sorted(restored)}'))
     # names rollback removes exactly the entries recorded at or after the entry's start
-    comp = [x for n in fail_nodes if n.kind == 'stmt' for x in walk_local_ordered(n.ast) if isinstance(x, ast.ListComp)]
+    comp = [x for n in fail_nodes if n.kind in ('stmt', 'for') and n.ast is not None for x in walk_local_ordered(n.ast.iter if n.kind == 'for' else n.ast) if isinstance(x, ast.ListComp)]
     okc = False
     for c in comp:
         g = c.generators[0]
@@ -1206,13 +1225,22 @@ def nsecbits(ctx: Any) -> List[Ob]:
     prog = ctx.prog
     w = prog.cls('zeroconf._dns.DNSNsec').methods['write']
     obs: List[Ob] = []
+    from .common import expand as _xp
+
+    loops = [lp for lp in walk_local_ordered(w.node) if isinstance(lp, ast.For) and isinstance(lp.target, ast.Name)]
+    tvar = loops[0].target.id if loops else '?'
+
+    def is_byte_index(x: ast.AST) -> bool:
+        """`T // 8` for the loop's type T"""
+        return isinstance(x, ast.BinOp) and isinstance(x.op, ast.FloorDiv) and isinstance(x.left, ast.Name) and x.left.id == tvar and prog.try_fold(w.module, x.right) == (True, 8)
+
     byte_ok = mask_ok = False
     for st in walk_local_ordered(w.node):
-        if isinstance(st, ast.Assign) and isinstance(st.value, ast.BinOp) and isinstance(st.value.op, ast.FloorDiv) and prog.try_fold(w.module, st.value.right) == (True, 8):
-            byte_ok = True
-        if isinstance(st, ast.AugAssign) and isinstance(st.op, ast.BitOr) and isinstance(st.value, ast.BinOp) and isinstance(st.value.op, ast.RShift):
-            v = st.value
-            mask_ok = prog.try_fold(w.module, v.left) == (True, 0x80) and isinstance(v.right, ast.BinOp) and isinstance(v.right.op, ast.Mod) and prog.try_fold(w.module, v.right.right) == (True, 8)
+        if isinstance(st, ast.AugAssign) and isinstance(st.op, ast.BitOr) and isinstance(st.target, ast.Subscript):
+            byte_ok = is_byte_index(_xp(w, st.target.slice))
+            v = _xp(w, st.value)
+            mask_ok = (isinstance(v, ast.BinOp) and isinstance(v.op, ast.RShift) and prog.try_fold(w.module, v.left) == (True, 0x80) and isinstance(v.right, ast.BinOp) and isinstance(v.right.op, ast.Mod)
+                       and isinstance(v.right.left, ast.Name) and v.right.left.id == tvar and prog.try_fold(w.module, v.right.right) == (True, 8))
     obs.append(ob(R, w, 'byte = rdtype // 8 ; bitmap[byte] |= 0x80 >> rdtype % 8', 'writer: type t is bit (0x80 >> t mod 8) of byte t div 8', byte_ok and mask_ok))
     # the window that is written: 32 bytes of zeroes to start with, as many of them emitted as the highest type needs (its byte
     # index + 1 -- the types are kept sorted by the constructor, so the last one seen is the highest), types above 255 refused
@@ -1226,12 +1254,16 @@ def nsecbits(ctx: Any) -> List[Ob]:
         okf, folded = prog.try_fold(w.module, v0.args[0]) if v0.args else (False, None)
         size_ok = okf and folded == bytes(32)
     obs.append(ob(R, w, f'{bm[0] if bm else "bitmap"} = bytearray(32 zero bytes)', 'window 0 starts as 32 zero bytes (types 0..255)', size_ok))
-    byte_v = [st.targets[0].id for st in walk_local_ordered(w.node) if isinstance(st, ast.Assign) and isinstance(st.targets[0], ast.Name) and isinstance(st.value, ast.BinOp) and isinstance(st.value.op, ast.FloorDiv)]
-    tot = [st for st in walk_local_ordered(w.node) if isinstance(st, ast.Assign) and isinstance(st.targets[0], ast.Name) and byte_v and any(isinstance(x, ast.Name) and x.id == byte_v[0] for x in ast.walk(st.value)) and st.targets[0].id != byte_v[0]]
+    # the emitted length: the one local set in the loop to (byte index of the type) + 1
+    tot = []
     tot_ok = False
+    for lp in loops[:1]:
+        for st in walk_local_ordered(lp):
+            if isinstance(st, ast.Assign) and isinstance(st.targets[0], ast.Name) and any(is_byte_index(x) for x in ast.walk(_xp(w, st.value))) and not is_byte_index(_xp(w, st.value)):
+                tot.append(st)
     if len(tot) == 1:
         try:
-            tot_ok = lf.poly(prog, w.module, tot[0].value, lambda x: 'B' if isinstance(x, ast.Name) and x.id == byte_v[0] else None) == lf.parse_poly('B + 1')
+            tot_ok = lf.poly(prog, w.module, _xp(w, tot[0].value), lambda x: 'B' if is_byte_index(x) else None) == lf.parse_poly('B + 1')
         except lf.NotLinear:
             tot_ok = False
     sl = [x for x in ast.walk(w.node) if isinstance(x, ast.Subscript) and isinstance(x.slice, ast.Slice) and bm and norm(x.value) == bm[0]]
